@@ -161,3 +161,72 @@ def retro_facts(run):
                       "" if ok else "on the %s path MonoTimer.latest shifts %s by delta, expected %s: elapsed/expired are no longer "
                       "invariant under a backward clock jump" % ("delta<0" if neg else "delta>=0", sorted(shifted), sorted(want)), tr))
     return facts
+
+
+# ----------------------------------------------------- C08.R3 evaluation order
+def eval_order_loads(e):
+    """Attribute / name loads of an expression in Python's evaluation order (left operand before right, receiver before
+    arguments, comparison left before comparators).  Short-circuit and conditional operands are kept in source order."""
+    out = []
+
+    def go(n):
+        if n is None:
+            return
+        if isinstance(n, ast.Attribute):
+            d = dotted(n)
+            if d is not None:
+                out.append((d, n))
+                return
+            go(n.value)
+            return
+        if isinstance(n, ast.IfExp):
+            go(n.test), go(n.body), go(n.orelse)
+            return
+        for c in ast.iter_child_nodes(n):
+            if isinstance(c, (ast.expr, ast.keyword)):
+                go(c.value if isinstance(c, ast.keyword) else c)
+    go(e)
+    return out
+
+
+def getter_order_facts(run):
+    """The getter `MonoTimer.latest` rewrites attributes (self._start/_stop on a backward jump).  A property that combines
+    `.latest` with one of those attributes must evaluate `.latest` first: Python evaluates operands left to right, so
+    `self._stop <= self.latest` compares the stop of *before* the retrograde shift with the time of *after* it."""
+    ix = run.ix
+    cls = ix.cls("hio.help.timing", "MonoTimer")
+    latest = ix.method(cls, "latest")
+    written = set()
+    for n in walk_local(latest.node):
+        tgt = n.target if isinstance(n, ast.AugAssign) else (n.targets[0] if isinstance(n, ast.Assign) else None)
+        d = dotted(tgt) if tgt is not None else None
+        if d and d.startswith("self."):
+            written.add(d)
+    facts = []
+    for name in ("elapsed", "expired"):
+        f = ix.method(cls, name)
+        bad = None
+        uses = 0
+        for st in walk_local(f.node):
+            if not isinstance(st, (ast.Return, ast.Assign, ast.Expr, ast.If, ast.While)):
+                continue
+            e = st.value if isinstance(st, (ast.Return, ast.Assign, ast.Expr)) else st.test
+            loads = eval_order_loads(e)
+            names = [d for d, n in loads]
+            if "self.latest" not in names:
+                continue
+            uses += 1
+            first = names.index("self.latest")
+            early = [d for d in names[:first] if d in written]
+            if early:
+                bad = (early[0], st)
+        ok = uses > 0 and bad is None
+        what = ""
+        if uses == 0:
+            what = "MonoTimer.%s no longer reads the retrograde-corrected clock `.latest`" % name
+        elif bad:
+            what = ("`%s` reads %s before `.latest` is evaluated; the getter of `.latest` shifts %s back when the system clock has jumped "
+                    "backwards, so the value compared is the one from before the shift: right after a backward jump %s momentarily reports "
+                    "the un-shifted timer (expired reverts to False)" % (unparse(bad[1]), bad[0], bad[0], name))
+        facts.append(("%s:latest-evaluated-before-shifted-attrs" % name, ok, run.site(f, bad[1]) if bad else run.site(f), what))
+    return facts, sorted(written)
